@@ -7,7 +7,7 @@ HOOK_COMMITS = []
 
 ENGINES = [
     {'name': 'E1-input-config-explorer', 'path': 'vf/core.py, vf/univ.py, vf/oracles.py',
-     'serves_properties': ['C01', 'C02', 'C03', 'C04', 'C05', 'C09', 'C10', 'C11'],
+     'serves_properties': ['C01', 'C02', 'C03', 'C04', 'C05', 'C06', 'C09', 'C10', 'C11'],
      'kind_free_text': 'explicit enumeration of every input shape/value/configuration inside stated bounds; real code run on each; compared with a reference model on every case'},
 ]
 
@@ -60,6 +60,13 @@ CHECKS['C05'] = (E1, 'E1-input-config-explorer',
     'are checked for admissibility (steps, band, max_step, relaxed corners) and for accumulated cost == reference distance == reported distance, over all pairs up to length 3 x settings cross and all shapes up to 5x5 (6x6).',
     'Trusted: vf/oracles.py. One open finding (K01: best_path/best_path2/best_path_compact called directly on -1 marked matrices under psi end-relaxation).',
     'DESIGN.md section 4 C05')
+
+CHECKS['C06'] = (E1, 'E1-input-config-explorer',
+    'For collections of n = 1..5 (6) series with pairwise distinct distances (5 families incl. unequal lengths and ndim 2-3) EVERY block ((rb,re),(cb,ce)[,False]) plus None is enumerated; the compact result of the Python engine, '
+    'the Cython route (5 container forms) and the six exported dtw_distances_* routines (exact-size output buffers) must list exactly the reference distances of the selected pairs in row-major order and have the advertised length '
+    '(3 length helpers); square and only_triu forms are compared entry by entry; distance_array_index is checked for all a != b.',
+    'Trusted: vf/oracles.py distances; the layout reference is a two-line list comprehension. Diagonal of the only_triu square form is not judged.',
+    'DESIGN.md section 4 C06')
 
 ALL = ['C%02d' % i for i in range(1, 21)]
 NOT_APPLICABLE = {p: PENDING for p in ALL if p not in CHECKS}
